@@ -146,6 +146,11 @@ def e2e(chk: Check, cases, rng, n):
             case["constraints"] = [{"type": kind, "target": "a", "ivs": tiv, "single": len(tiv) == 1 and rng.random() < 0.5}]
         elif kind == "relation":
             case["relations"] = [{"source": "b", "target": "a", "param": 2, "ivs": tiv, "single": len(tiv) == 1 and rng.random() < 0.5}]
+            # a second relation for the same target on a single point outside the first interval: each index uses ITS relation
+            outside = [p for p in axis if p not in may]
+            p2 = rng.choice(outside) if outside and rng.random() < 0.6 else None
+            if p2 is not None:
+                case["relations"].append({"source": "c", "target": "a", "param": 3, "ivs": [[p2 / 2, p2 / 2]], "single": rng.random() < 0.5})
         elif kind == "weight":
             case["weights"] = [{"datasets": ["d1"], "givs": tiv, "mivs": [], "value": 3}]
             if rng.random() < 0.5:
@@ -181,14 +186,19 @@ def e2e(chk: Check, cases, rng, n):
             if res.number_of_clps != exp_nclp:
                 chk.violation(f"Intervals[e2e {kind} number_of_clps]: {kinds}", f"{desc}: number_of_clps {res.number_of_clps}, specification {exp_nclp}", rep)
         elif kind == "relation":
+            p2 = next((int(round(r["ivs"][0][0] * 2)) for r in case["relations"][1:]), None)
             for p in axis:
                 a = float(rd.clp.sel(spectral=p / 2, clp_label="a"))
                 b = float(rd.clp.sel(spectral=p / 2, clp_label="b"))
+                c_ = float(rd.clp.sel(spectral=p / 2, clp_label="c"))
                 related = abs(a - 2 * b) <= 1e-12 * max(1, abs(a))
                 if p in must and not related:
                     chk.violation(f"Intervals[e2e relation]: {kinds}", f"{desc}: at {p / 2} clp[a]={a} != 2 x clp[b]={b} inside the interval", rep)
                     break
-            exp_nclp = sum(2 if p in must else 3 for p in axis)
+                if p == p2 and abs(a - 3 * c_) > 1e-12 * max(1, abs(a)):
+                    chk.violation(f"Intervals[e2e second relation]: {kinds}", f"{desc}: at {p / 2} (the single-point interval of the second relation) clp[a]={a} != 3 x clp[c]={c_}", rep)
+                    break
+            exp_nclp = sum(2 if (p in must or p == p2) else 3 for p in axis)
             if res.number_of_clps != exp_nclp:
                 chk.violation(f"Intervals[e2e relation number_of_clps]: {kinds}", f"{desc}: number_of_clps {res.number_of_clps}, specification {exp_nclp}", rep)
         elif kind == "weight":
@@ -218,6 +228,33 @@ def e2e(chk: Check, cases, rng, n):
                 chk.violation(f"Intervals[e2e weight applied{' full model' if gm else ''}]: {kinds}",
                               f"{desc}: the fitted clps do not minimise the problem weighted with the reported weight (normal equations off by {float(np.abs(grad).max()):.3g}): "
                               f"the weight applied to the fit is not the one the interval selects", rep)
+        if kind in ("zero", "only", "relation"):
+            # the reduction that was SOLVED is the one the intervals select: at every index the reported residual is data - matrix x clp, and it
+            # is orthogonal to the columns of the reduced matrix of THAT index (the clps alone cannot show a wrong reduction: they are re-expanded
+            # with the right relation afterwards)
+            A = np.array(cols, dtype=float).T
+            D = np.array(data, dtype=float)
+            R = rd.residual.transpose("time", "spectral").values
+            C = np.array([[float(rd.clp.sel(spectral=p / 2, clp_label=l)) for l in ("a", "b", "c")] for p in axis]).T
+            if not np.allclose(R, D - A @ C, rtol=0, atol=1e-9 * (1 + float(np.abs(D).max()))):
+                chk.violation(f"Intervals[e2e {kind} residual identity]: {kinds}", f"{desc}: residual != data - matrix x clp (max deviation {float(np.abs(R - (D - A @ C)).max()):.3g})", rep)
+            else:
+                p2_ = next((int(round(r["ivs"][0][0] * 2)) for r in case["relations"][1:]), None) if kind == "relation" else None
+                for j, p in enumerate(axis):
+                    a_, b_, c_ = A[:, 0], A[:, 1], A[:, 2]
+                    if kind == "relation":
+                        red = [b_ + 2 * a_, c_] if p in must else ([b_, c_ + 3 * a_] if p == p2_ else ([a_, b_, c_] if p not in may else None))
+                    else:
+                        red = [b_, c_] if p in zero_at else [a_, b_, c_]
+                    if red is None:
+                        continue
+                    g_ = np.array(red) @ R[:, j]
+                    if np.abs(g_).max() > 1e-8 * (1 + float(np.abs(D).max()) * float(np.abs(A).max())):
+                        chk.violation(f"Intervals[e2e {kind} solved reduction]: {kinds}",
+                                      f"{desc}: at {p / 2} the residual is not orthogonal to the reduced matrix the items select there (off by {float(np.abs(g_).max()):.3g}): another reduction was solved", rep)
+                        break
+        elif kind == "weight":
+            pass
         else:
             got = [float(v) for g in res.additional_penalty for v in g]
             a = {p: float(rd.clp.sel(spectral=p / 2, clp_label="a")) for p in axis}
